@@ -383,7 +383,7 @@ func (w *Worker) runPath(prefix []Dec) {
 	for g, o := range w.baseGlobals {
 		globals[g] = hc.obj(o)
 	}
-	e := &Exec{w: w, eng: w.eng, ctx: w.ctx, h: h, globals: globals, prefix: prefix, stepBudget: h.StepBudget, maxAlloc: 1 << 26, arith: h.Arith, objN: 1 << 20}
+	e := &Exec{w: w, eng: w.eng, ctx: w.ctx, h: h, globals: globals, prefix: prefix, stepBudget: h.StepBudget, maxAlloc: 1 << 21, arith: h.Arith, objN: 1 << 20}
 	fn := w.eng.ssaPkgs[h.Pkg].Func(h.Func)
 	end := pathEnd{kind: "done"}
 	func() {
